@@ -452,3 +452,25 @@ def current_values(f, root, steps, after=()):
             if strip_bitcasts(f, a.root) == root and tuple(a.steps) == tuple(steps) and isinstance(i.o[0], str):
                 out.add(strip_bitcasts(f, i.o[0]))
     return out
+
+
+def exchange_events(f):
+    """instructions of a swap function that exchange (parts of) its two list objects as a block: memcpy / memmove, and calls
+    that are handed both objects (the generic cstl_swap, whatever its body looks like)"""
+    from .ir import resolve_addr
+    from .facts import strip_bitcasts
+    out = []
+    for c in f.all_insts():
+        if c.op != 'call':
+            continue
+        if (c.callee or '').startswith(('llvm.memcpy', 'llvm.memmove')):
+            out.append(c)
+        elif c.callee and not c.is_intrinsic() and len(c.o) >= 2:
+            roots = set()
+            for o in c.o[:2]:
+                if isinstance(o, str):
+                    r = resolve_addr(f, o).root
+                    roots.add(strip_bitcasts(f, r) if isinstance(r, str) else r)
+            if roots == {'$0', '$1'}:
+                out.append(c)
+    return out
